@@ -2,7 +2,7 @@
 //! Under `cargo +nightly miri run` Miri's vector-clock race detector reports any unsynchronised access
 //! pair between the threads, whatever the actual interleaving; natively the binary just prints the
 //! outcome (used for the disjoint-or-solo stream rule).
-use rlib_treap::{Treap, TreapItem, TreapItemSized, TreapNode};
+use rlib_treap::{Treap, TreapItem, TreapItemSized, TreapNode, TreePrinter};
 use std::sync::{Arc, Mutex};
 use std::thread;
 
@@ -13,7 +13,7 @@ fn main() {
     let threads: u32 = args.get(1).and_then(|s| s.parse().ok()).unwrap_or(2);
     let k: usize = args.get(2).and_then(|s| s.parse().ok()).unwrap_or(2);
     // the stream a thread gets when it is the only one creating nodes (fresh thread, nothing concurrent)
-    let solo = thread::spawn(move || script(1, k, None)).join().unwrap();
+    let solo = thread::spawn(move || script_caught(1, k, None)).join().unwrap().0;
     let o = run_once(threads, k, false, false);
     println!("SOLO {:?}", solo.prios);
     println!("OUTCOME {}", outcome_json(&o));
